@@ -24,6 +24,22 @@ def model_runs(ctx):
     ctx._cases = res.cases()
     ctx.extra["exhaustive"] = True
     ctx.extra["bound"] = "MC_TimeCodes boundary sets (%s)" % ("reduced" if ctx.quick else "full")
+    res = tlc.run("MC_Blocks", cfg="MC_Blocks" if ctx.quick else "MC_Blocks4", timeout=1800)
+    ctx.add_tlc(res, "block structure: the WebVTT and SRT line loops (as repaired / as the property asks) yield exactly the "
+                     "payload of the non-empty cue blocks, on every document of <= %d blocks" % (3 if ctx.quick else 4))
+    ctx._blocks = [c["doc"] for c in res.cases()]
+
+
+def model_controls(ctx):
+    n = 0
+    for cfg, what in (("MC_Blocks_neg", "the WebVTT line loop before commit 62325d3 (a blank line did not end a cue without payload)"),
+                      ("MC_Blocks_negsrt", "the SRT line loop as it is (blank first payload line kept: KF-C01-6)")):
+        r = tlc.run("MC_Blocks", cfg=cfg, allow_violation=True, workers=4)
+        if r.violated != "ReadersMeetRequirement":
+            raise tlc.MachineryError("%s: TLC did not refute %s" % (cfg, what))
+        ctx.add_tlc(r, "negative control: " + what + " is refuted")
+        n += 1
+    return n
 
 
 def D(n, width=1):
@@ -189,6 +205,9 @@ def inputs(ctx):
         if fmt == "WebVTT" and rng.random() < 0.4:
             inp["vtt_extras"] = True
         ins.append(inp)
+    # document block structure: every abstract document of MC_Blocks, laid out and read
+    for k, doc in enumerate(ctx._blocks):
+        ins.append({"id": "blk%d" % k, "k": "blocks", "fmt": doc["fmt"], "doc": doc})
     return ins
 
 
@@ -204,6 +223,9 @@ def _project(cs, lang):
 
 def execute(inp):
     import pycaption
+    if inp.get("k") == "blocks":
+        from . import blocks
+        return blocks.execute(inp)
     fmt = inp["fmt"]
     rec = {"k": "read", "fmt": fmt, "shift": bigint(inp.get("shift", 0)), "fps": inp.get("fps", [25, 1])}
     if fmt == "SAMI":
@@ -299,6 +321,11 @@ def _features(inp):
 
 def signature(inp, rec, clause):
     sig = {"clause": clause.split(" ")[0], "fmt": inp["fmt"]}
+    if inp.get("k") == "blocks":
+        from . import blocks
+        sig["k"] = "blocks"
+        sig["srt_blank_after_empty_cue"] = blocks.srt_blank_after_empty_cue(inp["doc"])
+        return sig
     f = _features(inp)
     # the single feature that explains a rejection, when there is one
     if inp["fmt"] == "DFXP":
@@ -319,6 +346,8 @@ def signature(inp, rec, clause):
 
 
 def nontrivial(inp, rec):
+    if inp.get("k") == "blocks":
+        return inp["id"]
     if inp["fmt"] == "SAMI":
         if len(inp["langs"]) > 1 or any(b for s in inp["syncs"] for _, b in s["ps"]) or len(inp["syncs"]) > 1:
             return inp["id"]
@@ -332,6 +361,9 @@ def nontrivial(inp, rec):
 
 def corrupt(inp, rec):
     import copy
+    if rec.get("k") == "blocks":
+        from . import blocks
+        return blocks.corrupt(rec)
     if not rec["obs"]["ok"] or not rec["obs"]["caps"]:
         return []
     from .num import from_limbs
